@@ -16,3 +16,4 @@ CONSTANTS
   REORIENT = TRUE
   BIGSET = FALSE
   SAMPLE = 61
+  STREAMLEN = 0
